@@ -2,13 +2,23 @@ from props import S
 
 CFG = {
     "properties_file": "Properties/C22.v",
-    "corr_files": ["Corr/C22.v"],
-    "streams": [S("C22", "drive_nfs", 120, 5000)],
+    "corr_files": ["Corr/C22.v", "Corr/C22c.v"],
+    "streams": [S("C22", "drive_nfs", 120, 5000), S("C22c", "drive_c29", 40, 2000, race=True)],
     "rule": "histories of WRITE (stable_how 0/1/2) / COMMIT / SETATTR(size) / CREATE(size) / RENAME / REMOVE / READ on 2-3 files; "
             "the durable tree (what a crash that drops everything not synced would leave) is recorded after EVERY backend call of "
             "every request = the crash points; a second server instance created later supplies a second write verifier; "
-            "non-trivial = more than one WRITE and more than 10 crash points",
-    "assumptions": ["crash model: file contents/size durable only after Sync, namespace and metadata operations durable at once "
+            "non-trivial = more than one WRITE and more than 10 crash points. Stream C22c (harness/cmd/drive_c29, CONCURRENT, sampled): "
+            "2-3 client goroutines x 2-5 requests (WRITE 74% with stable_how 0/1/2, offsets 0-12, 1-8 bytes that identify writer and "
+            "request; COMMIT 20% whole-file or ranged; READ) on 1-2 shared files of one real server, half of the cases in lock-step "
+            "rounds (durable dump after every round) and half free-running (durable dump after quiescence), seeded schedule noise "
+            "before/after every backend call and INSIDE every Sync; specfs in SyncSnapshot mode (a Sync persists what the file held "
+            "when it was entered); 4 schedule seeds per history; corpus = 5 directed schedules (a writer's Sync held while another "
+            "writer writes, syncs and is answered; the second Sync held while the first writer completes; COMMIT and a third WRITE "
+            "overlapping a held WRITE; three writers of the same bytes); non-trivial = two WRITEs of different clients to one file "
+            "overlapping in time",
+    "assumptions": ["stream C22c: an fsync guarantees only what was written before it was called (specfs SyncSnapshot mode); of concurrent "
+                    "writers of the same bytes either one's bytes may be the durable ones",
+                    "crash model: file contents/size durable only after Sync, namespace and metadata operations durable at once "
                     "(Model/Backend.v be_crash; harness/specfs Crash) - an assumption about the environment, stated as a definition",
                     "write verifier = server creation time in ns: distinct instances are created at distinct clock readings"],
     "level_text": "Proved for Model/Srv.v relative to the stated crash model: after a WRITE that answers OK (always FILE_SYNC: "
@@ -16,6 +26,10 @@ CFG = {
                   "what it was (C22_durable, C22_crash_frame); COMMIT changes nothing (C22_commit); without Sync the data would be "
                   "lost (C22_unsynced_lost_example: the theorem is not vacuous). On the implementation: every acknowledged byte "
                   "range must be present in the durable tree at the reply and at every later crash point until superseded; the "
-                  "model's durable tree must equal the backend's; verifier constant per instance and different across instances.",
+                  "model's durable tree must equal the backend's; verifier constant per instance and different across instances. "
+                  "Concurrent writers are SAMPLED only (stream C22c, thorough under -race; nothing about goroutine interleavings is "
+                  "proved): at every instant with no request in flight, every byte of every WRITE acknowledged DATA_SYNC/FILE_SYNC "
+                  "(or covered by an OK COMMIT invoked after its response) must be in the durable tree and hold the byte of a "
+                  "writer not superseded by a later stable write; one verifier per case.",
     "level_note": "Trusted: Coq kernel; Model/Srv.v + Model/Backend.v as a rendering of the handlers and of the backend contract (validated on every run by the correspondence streams incl. the full-fidelity SRV stream); harness/specfs; the oracle's ghost handle map.",
 }
